@@ -10,7 +10,7 @@ Relations exercised on every run
 
 Document representation (JSON friendly; also the replay format)
   atom : ["i", n] | ["r", "p/q"] | ["n", "Name"] | ["R", objid] | ["null"]
-  val  : atom | ["a", [atom, ...]] | ["d", [[key, atom], ...]]
+  val  : atom | ["a", [elem, ...]] | ["d", [[key, atom], ...]]      elem : atom | ["d", [[key, atom], ...]]
   obj  : ["D", [[key, val], ...]]  (a dictionary object: page-tree node, indirect Resources ...)  | val
   doc  : {"catalog": [[key, val], ...], "objs": [[objid, obj], ...], "glyph": {pageid: ["tx","ty"]}, "kind": ...}
 Objects 1 (catalog), 3 (Helvetica), 4 (font dictionary << /F1 3 0 R >>) and the content streams are added by
@@ -135,7 +135,7 @@ def val_to_w(v):
     if is_atom(v):
         return atom_to_w(v)
     if v[0] == "a":
-        return [atom_to_w(a) for a in v[1]]
+        return [val_to_w(a) for a in v[1]]
     if v[0] == "d":
         return {k: atom_to_w(a) for k, a in v[1]}
     raise ValueError(v)
@@ -194,7 +194,7 @@ def val_txt(v) -> str:
     if is_atom(v):
         return atom_txt(v)
     if v[0] == "a":
-        return "[ " + "".join(atom_txt(a) + " " for a in v[1]) + "]"
+        return "[ " + "".join(val_txt(a) + " " for a in v[1]) + "]"
     if v[0] == "d":
         return "{ " + "".join(f"{k} {atom_txt(a)} " for k, a in v[1]) + "}"
     raise ValueError(v)
@@ -322,11 +322,13 @@ class SpecError(Exception):
 
 def resolve(objs, v, depth=0):
     """resolve1: follow references (a missing object is null, and so is a circular chain)."""
+    seen = set()
     while is_atom(v) and v[0] == "R":
-        if depth > 64:
+        n = int(v[1])
+        if n in seen:
             return ["null"]
-        depth += 1
-        v = objs.get(int(v[1]), ["null"])
+        seen.add(n)
+        v = objs.get(n, ["null"])
         if v[0] == "D":
             return v
     return v
@@ -394,17 +396,17 @@ def spec_walk(doc) -> List[Tuple[int, Dict[str, Any]]]:
     stack: List[Tuple[Any, Dict[str, Any]]] = [(root, {})]
     while stack:
         ref, inherited = stack.pop()
-        if ref[0] == "R":
+        if ref[0] in ("R", "i"):
             nid = int(ref[1])
-        elif ref[0] == "i":
-            nid = int(ref[1])
+            node = resolve(objs, ["R", nid])
+            if nid in seen:
+                continue
+            seen.add(nid)
         else:
-            raise SpecError("kid is not a reference")
-        node = resolve(objs, ["R", nid])
-        if nid in seen:
-            continue
-        seen.add(nid)
-        pairs = node[1] if node[0] == "D" else []
+            # not an indirect object: no object number; a dictionary is taken as it is, anything else is {}
+            nid = None
+            node = ["D", [[k, a] for k, a in ref[1]]] if ref[0] == "d" else ["null"]
+        pairs = node[1] if node[0] in ("D", "d") else []
         attrs = dict(inherited)
         for k in INH:
             v = dget(pairs, k)
@@ -413,6 +415,8 @@ def spec_walk(doc) -> List[Tuple[int, Dict[str, Any]]]:
         t = node_type(pairs)
         kids = dget(pairs, "Kids")
         if t == "Pages" and kids is not None:
+            if nid is None:
+                continue        # a Pages node that is not an indirect object is ignored
             kv = resolve(objs, kids)
             ks = kv[1] if kv[0] == "a" else []
             for kid in reversed(ks):
@@ -767,7 +771,8 @@ def add_wild(rng, doc, ctx=None) -> None:
     for _ in range(rng.randint(1, 3)):
         kind = rng.choice(["catalog-attr", "rotate-type", "type-unknown", "type-missing", "no-kids", "dangling-kid",
                            "int-kid", "box-name", "box-null", "box-int", "no-pages", "orphans", "ref-chain",
-                           "null-attr", "atom-kid", "ref-cycle", "pages-array"])
+                           "null-attr", "atom-kid", "ref-cycle", "pages-array", "direct-kid", "direct-kid",
+                           "pages-direct", "long-chain"])
         if ctx is not None:
             ctx.branch("wild:" + kind)
         n = rng.choice(nodes) if nodes else None
@@ -832,6 +837,34 @@ def add_wild(rng, doc, ctx=None) -> None:
                     ks.append(["R", a])
             else:
                 pairs[:] = [p for p in pairs if p[0] != k] + [[k, ["R", a]]]
+        elif kind == "direct-kid":
+            inner = [x for x in nodes_of(doc, "Pages") if kids_list(doc, x) is not None]
+            if inner:
+                ks = kids_list(doc, rng.choice(inner))
+                pairs = [[rng.choice(["Type", "Type", "type"]), ["n", rng.choice(["Page", "Page", "Pages", "Font"])]]]
+                if rng.random() < 0.5:
+                    pairs.append(["Rotate", ["i", rng.choice([0, 90, -90, 450])]])
+                if rng.random() < 0.4:
+                    pairs.append(["MediaBox", put(["a", [["i", 1], ["i", 2], ["r", "201/2"], ["i", 300]]])])
+                if rng.random() < 0.4:
+                    pairs.append(["Kids", rng.choice([["R", doc["root"]], put(["a", [["R", doc["root"]]]])])])
+                rng.shuffle(pairs)
+                ks.insert(rng.randint(0, len(ks)), ["d", pairs])
+        elif kind == "pages-direct":
+            pairs = [["Type", ["n", rng.choice(["Page", "Pages", "Pages"])]], ["Rotate", ["i", 180]]]
+            if rng.random() < 0.6:
+                pairs.append(["Kids", put(["a", [["R", doc["root"]]]])])
+            doc["catalog"][:] = [p for p in doc["catalog"] if p[0] != "Pages"] + [["Pages", ["d", pairs]]]
+        elif kind == "long-chain" and n is not None:
+            # an attribute reached through a chain of 9..14 references (longer than any fixed small bound)
+            pairs = objs[n][1]
+            for p in pairs:
+                if p[0] in INH and is_atom(p[1]):
+                    v = p[1]
+                    for _ in range(rng.randint(9, 14)):
+                        v = put(v)
+                    p[1] = v
+                    break
         elif kind == "pages-array":
             doc["catalog"][:] = [p for p in doc["catalog"] if p[0] != "Pages"] + [["Pages", ["a", [["R", doc["root"]]]]]]
         elif kind == "no-pages":
@@ -884,9 +917,15 @@ def gen_selections(rng, npages: int) -> List[Tuple[Optional[List[int]], int]]:
 
 # ------------------------------------------------------------------ one document: tie + property
 
+def page_letter(line: str) -> str:
+    """The glyph of the page described by a canonical page line ('.' for a page that is not an indirect object)."""
+    w = line.split(" ")[0]
+    return page_char(int(w)) if w != "None" else "."
+
+
 def parse_page_line(s: str):
     w = s.split(" ")
-    return int(w[0]), int(w[1]), tuple(F(x) for x in w[2:6]), tuple(F(x) for x in w[6:10]), w[10]
+    return (int(w[0]) if w[0] != "None" else None), int(w[1]), tuple(F(x) for x in w[2:6]), tuple(F(x) for x in w[6:10]), w[10]
 
 
 def doc_tags(doc, extra=None) -> Dict[str, Any]:
@@ -995,7 +1034,7 @@ class DocCheck:
                               {"op": "select", "beyond_limit": beyond}, sel=(sel, mp))
                 if idx < 2 or (beyond and idx < 4):
                     txt = impl_text(data, container, mp)
-                    exp_txt = "".join(page_char(int(s.split(" ")[0])) for s in exp_sel) or "-"
+                    exp_txt = "".join(page_letter(s) for s in exp_sel) or "-"
                     self.ctx.branch("extract_text")
                     if self.in_domain and txt != exp_txt:
                         self.fail("extract_text(page_numbers, maxpages) does not write exactly the selected pages "
@@ -1003,7 +1042,7 @@ class DocCheck:
                                   {"op": "select", "via": "extract_text", "beyond_limit": beyond}, sel=(sel, mp))
                 if idx == 1:
                     ep = impl_extract_pages(data, container, mp)
-                    exp_ep = ";".join(page_char(int(s.split(" ")[0])) for s in exp_sel) or "-"
+                    exp_ep = ";".join(page_letter(s) for s in exp_sel) or "-"
                     got_ep = ";".join(x.split(":")[-1] for x in ep.split(";")) if not ep.startswith("EXC") else ep
                     self.ctx.branch("extract_pages")
                     if self.in_domain and got_ep != exp_ep:
